@@ -54,6 +54,7 @@ Inductive prim :=
 | PWaitGroupNew | PWaitGroupAdd | PWaitGroupDone | PWaitGroupWait
 | PPanic (msg : string) | PAssume | PAssert | PExit | PLinearize
 | PTimeSleep | PTimeNow | PRandom | PNewProph | PResolveProph
+| PFor | PForSlice (t : ty) | PMapIter | PToU64 | PToU32 | PToU8
 | PExt (name : string).      (* FFI and imported-package functions: no semantics here *)
 
 Inductive expr :=
@@ -68,9 +69,6 @@ Inductive expr :=
 | Fst (e : expr)
 | Snd (e : expr)
 | Fork (e : expr)
-| ForLoop (cond body post : expr)                          (* for: c ; p := b *)
-| ForSliceLoop (t : ty) (k v : binder) (s body : expr)     (* ForSlice t k v s body *)
-| MapIterLoop (m : expr) (k v : binder) (body : expr)      (* MapIter m (λ: k v, body) *)
 with val :=
 | LitV (l : base_lit)
 | RecV (f x : binder) (e : expr)
